@@ -30,13 +30,14 @@ end C13
 namespace C13.E
 open Graph
 
-/-- the part of the domain the composition step needs -/
+/-- the part of the domain the composition step needs: the ids of the parent are `0..n-1` and those of
+    the sub-pattern `0..m-1`, in ANY node order -/
 structure Dom0 (g : Graph) (x : Int) (sub : Graph) : Prop where
   wg : WF g
-  cg : g.nodeIds = upto g.nodes.length
+  cg : g.nodeIds.Perm (upto g.nodes.length)
   hx : x ∈ g.nodeIds
   ws : WF sub
-  cs : sub.nodeIds = upto sub.nodes.length
+  cs : sub.nodeIds.Perm (upto sub.nodes.length)
 
 /-- the domain of the property, in `Prop` form -/
 structure Dom (g : Graph) (x : Int) (sub : Graph) (anchors : List Nat) : Prop extends Dom0 g x sub where
@@ -59,8 +60,8 @@ theorem dom_of_inDomain {g : Graph} {x : Int} {sub : Graph} {anchors : List Nat}
   simp only [Bool.and_eq_true, Bool.not_eq_true', beq_iff_eq] at h
   obtain ⟨⟨⟨⟨⟨⟨⟨h1, h2⟩, h3⟩, h4⟩, h5⟩, h6⟩, h7⟩, h8⟩ := h
   refine ⟨⟨WF_of_wf h1, ?_, (hasNode_iff g x).mp h3, WF_of_wf h5, ?_⟩, ?_, ?_, h8⟩
-  · unfold contiguous at h2; exact beq_iff_eq.mp h2
-  · unfold contiguous at h6; exact beq_iff_eq.mp h6
+  · unfold contiguous at h2; exact List.Perm.of_eq (beq_iff_eq.mp h2)
+  · unfold contiguous at h6; exact List.Perm.of_eq (beq_iff_eq.mp h6)
   · intro hm
     have := (hasEdge_iff g x x).mpr hm
     rw [this] at h4; cases h4
@@ -82,34 +83,34 @@ def hOf (g sub : Graph) : Graph := shiftGraph sub (g.nodes.length : Int)
 def G1 (g sub : Graph) : Graph := compose g (hOf g sub)
 
 theorem Dom0.x_range (d : Dom0 g x sub) : 0 ≤ x ∧ x < (g.nodes.length : Int) := by
-  have := d.hx; rw [d.cg] at this; exact mem_upto.mp this
+  exact mem_upto.mp (d.cg.mem_iff.mp d.hx)
 
-theorem Dom0.g_mem (d : Dom0 g x sub) {a : Int} : a ∈ g.nodeIds ↔ 0 ≤ a ∧ a < (g.nodes.length : Int) := by
-  rw [d.cg]; exact mem_upto
+theorem Dom0.g_mem (d : Dom0 g x sub) {a : Int} : a ∈ g.nodeIds ↔ 0 ≤ a ∧ a < (g.nodes.length : Int) :=
+  d.cg.mem_iff.trans mem_upto
 
 theorem Dom0.s_mem (d : Dom0 g x sub) {a : Int} :
     a ∈ sub.nodeIds ↔ 0 ≤ a ∧ a < (sub.nodes.length : Int) := by
-  rw [d.cs]; exact mem_upto
+  exact d.cs.mem_iff.trans mem_upto
 
 theorem Dom0.h_nodeIds (d : Dom0 g x sub) :
-    (hOf g sub).nodeIds = (upto sub.nodes.length).map (· + (g.nodes.length : Int)) := by
-  unfold hOf; rw [shift_nodeIds, d.cs]
+    (hOf g sub).nodeIds.Perm ((upto sub.nodes.length).map (· + (g.nodes.length : Int))) := by
+  unfold hOf; rw [shift_nodeIds]; exact d.cs.map _
 
 theorem Dom0.composeOk (d : Dom0 g x sub) : ComposeOk g (hOf g sub) := by
   refine ⟨d.wg, WF_shift d.ws _, ?_⟩
   intro a ha
-  rw [d.h_nodeIds, mem_map_add, mem_upto] at ha
+  rw [d.h_nodeIds.mem_iff, mem_map_add, mem_upto] at ha
   rw [d.g_mem]; omega
 
 theorem Dom.w1 (d : Dom g x sub anchors) : WF (G1 g sub) := WF_compose d.composeOk d.multi
 
 theorem Dom0.G1_nodeIds (d : Dom0 g x sub) :
-    (G1 g sub).nodeIds = upto (g.nodes.length + sub.nodes.length) := by
-  unfold G1; rw [compose_nodeIds d.composeOk, d.h_nodeIds, d.cg, upto_add]
+    (G1 g sub).nodeIds.Perm (upto (g.nodes.length + sub.nodes.length)) := by
+  unfold G1; rw [compose_nodeIds d.composeOk, upto_add]; exact d.cg.append d.h_nodeIds
 
 theorem Dom0.G1_mem (d : Dom0 g x sub) {a : Int} :
     a ∈ (G1 g sub).nodeIds ↔ 0 ≤ a ∧ a < (g.nodes.length : Int) + (sub.nodes.length : Int) := by
-  rw [d.G1_nodeIds, mem_upto]; simp only [Int.natCast_add]
+  rw [d.G1_nodeIds.mem_iff, mem_upto]; simp only [Int.natCast_add]
 
 theorem Dom0.G1_multi (d : Dom0 g x sub) : (G1 g sub).multi = g.multi := compose_multi d.composeOk
 
@@ -299,7 +300,7 @@ theorem Dom.loop_ok (d : Dom g x sub anchors) (a b : Int) :
 theorem Dom.w2 (d : Dom g x sub anchors) : WF (G2 g x sub anchors) := WF_addNewFrom d.w1 d.TT_ends
 
 theorem Dom.G2_nodeIds (d : Dom g x sub anchors) :
-    (G2 g x sub anchors).nodeIds = upto (g.nodes.length + sub.nodes.length) := by
+    (G2 g x sub anchors).nodeIds.Perm (upto (g.nodes.length + sub.nodes.length)) := by
   unfold G2 Graph.nodeIds; rw [addNewFrom_nodes d.TT_ends]; exact d.G1_nodeIds
 
 theorem Dom.G2_labels (d : Dom g x sub anchors) (a b : Int) :
@@ -313,9 +314,9 @@ theorem Dom.G2_labels (d : Dom g x sub anchors) (a b : Int) :
 theorem Dom.w3 (d : Dom g x sub anchors) : WF ((G2 g x sub anchors).removeNode x) := WF_removeNode d.w2 x
 
 theorem Dom.G3_nodeIds (d : Dom g x sub anchors) :
-    ((G2 g x sub anchors).removeNode x).nodeIds
-      = (upto (g.nodes.length + sub.nodes.length)).filter (· != x) := by
-  rw [removeNode_nodeIds, d.G2_nodeIds]
+    ((G2 g x sub anchors).removeNode x).nodeIds.Perm
+      ((upto (g.nodes.length + sub.nodes.length)).filter (· != x)) := by
+  rw [removeNode_nodeIds]; exact d.G2_nodeIds.filter _
 
 theorem Dom.inverts (d : Dom g x sub anchors) :
     Inverts ((G2 g x sub anchors).removeNode x)
